@@ -21,6 +21,7 @@ import PacketVerif.Lemmas.DnsMsgSpec
 import PacketVerif.Lemmas.DnsMsg
 import PacketVerif.Lemmas.Nbns
 import PacketVerif.Lemmas.MdnsSpec
+import PacketVerif.Lemmas.DnsProcess
 namespace PV.Props.C17
 open PV PV.Model PV.Spec PV.Lemmas.Dns PV.Lemmas.Naming PV.Lemmas.Nbns PV.Lemmas.Mdns
 
@@ -447,24 +448,26 @@ def TargetOK (m : Bytes) (r : RR) : Prop :=
 
 /-- **shape of a reference record `r` at offset `off` that `decodeRR` gets past**: owner name with
     at most 254 pointers; A with 4 and AAAA with 16 bytes of RDATA; CNAME with a reference target;
-    PTR whose owner (".in-addr.arpa" stripped) is a textual IP address — IPv6: skipped, IPv4:
-    reference target needed; every other type (MX, TXT, SOA, OPT, …) is unconstrained.
-    (`decodeRR_rejects` shows the A / AAAA / PTR-owner conditions are necessary.) -/
+    PTR: a reference target is needed only when the owner (".in-addr.arpa" stripped) is a textual
+    IPv4 address — a PTR record with any other owner (`….ip6.arpa` nibble names, DNS-SD service
+    names such as `_http._tcp.local`, an IPv6 literal) is unconstrained: it is skipped (fix commit;
+    before it such a record failed the whole message); every other type (MX, TXT, SOA, OPT, …)
+    is unconstrained.  (`decodeRR_rejects` shows the A / AAAA conditions are necessary.) -/
 def RecOK (ip6 : Bytes → PtrIP) (m : Bytes) (off : Nat) (r : RR) : Prop :=
   depthAt m off ≤ 254 ∧
   (r.rtype = 1 → r.rdata.length = 4) ∧
   (r.rtype = 28 → r.rdata.length = 16) ∧
   (r.rtype = 5 → TargetOK m r) ∧
-  (r.rtype = 12 → parsePtrIP ip6 (trimSuffix r.name inAddrArpa) = .v6 ∨
-    ((∃ a b c d, parsePtrIP ip6 (trimSuffix r.name inAddrArpa) = .v4 a b c d) ∧ TargetOK m r))
+  (r.rtype = 12 → (∃ a b c d, parsePtrIP ip6 (trimSuffix r.name inAddrArpa) = .v4 a b c d) → TargetOK m r)
 
 /-- **records the model skips**: a well-formed record of any type other than A / AAAA / CNAME /
-    PTR (MX included), or a PTR record whose owner is an IPv6 reverse name, leaves the entry
-    untouched and advances to the reference end of the record whatever its RDATA holds. -/
+    PTR (MX included), or a PTR record whose owner is not an IPv4 reverse name (ip6.arpa, DNS-SD
+    service PTR, IPv6 literal), leaves the entry untouched and advances to the reference end of the
+    record whatever its RDATA holds. -/
 theorem decodeRR_skip_eq_spec (ip6 : Bytes → PtrIP) (ent : DNSEntry) (m : Bytes) (off : Nat) (r : RR) (o : Nat)
     (h : rrAt? m off = some (r, o)) (hd : depthAt m off ≤ 254)
     (hskip : (r.rtype ≠ 1 ∧ r.rtype ≠ 28 ∧ r.rtype ≠ 5 ∧ r.rtype ≠ 12) ∨
-      (r.rtype = 12 ∧ parsePtrIP ip6 (trimSuffix r.name inAddrArpa) = .v6)) :
+      (r.rtype = 12 ∧ ∀ a b c d, parsePtrIP ip6 (trimSuffix r.name inAddrArpa) ≠ .v4 a b c d)) :
     decodeRR ip6 ent m off = .ok (ent, o, false) := by
   obtain ⟨e, d', rdl, hn, h1, h2, h3, h4, h5, h6, rfl⟩ := rrAt_facts h
   simp only [depthAt, hn] at hd
@@ -483,15 +486,19 @@ theorem decodeRR_skip_eq_spec (ip6 : Bytes → PtrIP) (ent : DNSEntry) (m : Byte
     split
     · rfl
     · first | rfl | rw [if_neg n12]
-  · rw [h12, if_neg (by decide), if_neg (by decide), if_neg (by decide), if_neg (by decide), if_pos rfl, hv6]
+  · rw [h12, if_neg (by decide), if_neg (by decide), if_neg (by decide), if_neg (by decide), if_pos rfl]
+    cases hq : parsePtrIP ip6 (trimSuffix r.name inAddrArpa) with
+    | invalid => rfl
+    | v6 => rfl
+    | v4 a b c d => exact absurd hq (hv6 a b c d)
 
 /-- **records the model rejects** (why `RecOK` asks for what it asks): an A record whose RDATA is
-    not 4 bytes, an AAAA record whose RDATA is not 16 bytes and a PTR record whose owner is not a
-    textual IP address make `decodeRR` — hence the whole ProcessDNS call — fail. -/
+    not 4 bytes and an AAAA record whose RDATA is not 16 bytes make `decodeRR` — hence the whole
+    ProcessDNS call — fail (a malformed record).  A PTR record is never a reason to fail because of
+    its owner name (`decodeRR_skip_eq_spec`). -/
 theorem decodeRR_rejects (ip6 : Bytes → PtrIP) (ent : DNSEntry) (m : Bytes) (off : Nat) (r : RR) (o : Nat)
     (h : rrAt? m off = some (r, o)) (hd : depthAt m off ≤ 254)
-    (hbad : (r.rtype = 1 ∧ r.rdata.length ≠ 4) ∨ (r.rtype = 28 ∧ r.rdata.length ≠ 16) ∨
-      (r.rtype = 12 ∧ parsePtrIP ip6 (trimSuffix r.name inAddrArpa) = .invalid)) :
+    (hbad : (r.rtype = 1 ∧ r.rdata.length ≠ 4) ∨ (r.rtype = 28 ∧ r.rdata.length ≠ 16)) :
     ∃ er, decodeRR ip6 ent m off = .err er := by
   obtain ⟨e, d', rdl, hn, h1, h2, h3, h4, h5, h6, rfl⟩ := rrAt_facts h
   simp only [depthAt, hn] at hd
@@ -506,11 +513,9 @@ theorem decodeRR_rejects (ip6 : Bytes → PtrIP) (ent : DNSEntry) (m : Bytes) (o
   rw [if_neg (by omega), r1, r2, r3]
   simp only []
   rw [if_neg (by omega)]
-  rcases hbad with ⟨ht, hl⟩ | ⟨ht, hl⟩ | ⟨ht, hinv⟩
+  rcases hbad with ⟨ht, hl⟩ | ⟨ht, hl⟩
   · rw [ht, if_pos rfl, if_pos (by omega)]; exact ⟨_, rfl⟩
   · rw [ht, if_neg (by decide), if_pos rfl, if_pos (by omega)]; exact ⟨_, rfl⟩
-  · rw [ht, if_neg (by decide), if_neg (by decide), if_neg (by decide), if_neg (by decide), if_pos rfl, hinv]
-    exact ⟨_, rfl⟩
 
 /-- **one record = one step of the reference fold**: on every reference record of the shape
     `RecOK`, `decodeRR` returns the entry with the record's candidate inserted first-wins
@@ -528,10 +533,14 @@ theorem decodeRR_eq_specStep (ip6 : Bytes → PtrIP) (ent : DNSEntry) (m : Bytes
   · obtain ⟨ct, ce, cd, hc, hcd⟩ := hC t5
     rw [decodeRR_CNAME_eq_spec ip6 ent m off r o ct ce cd h hd t5 hc hcd, specStep_CNAME ip6 m ent r o ct ce cd t5 hc]
   by_cases t12 : r.rtype = 12
-  · rcases hP t12 with hv6 | ⟨⟨a, b, c, d, hip⟩, pt, pe, pd, hc, hpd⟩
-    · rw [decodeRR_skip_eq_spec ip6 ent m off r o h hd (Or.inr ⟨t12, hv6⟩), specStep_skip ip6 m ent r o (Or.inr ⟨t12, hv6⟩)]
-    · rw [decodeRR_PTR_eq_spec ip6 ent m off r o pt pe pd a b c d h hd t12 hip hc hpd,
+  · by_cases hv4 : ∃ a b c d, parsePtrIP ip6 (trimSuffix r.name inAddrArpa) = .v4 a b c d
+    · obtain ⟨a, b, c, d, hip⟩ := hv4
+      obtain ⟨pt, pe, pd, hc, hpd⟩ := hP t12 ⟨a, b, c, d, hip⟩
+      rw [decodeRR_PTR_eq_spec ip6 ent m off r o pt pe pd a b c d h hd t12 hip hc hpd,
         specStep_PTR ip6 m ent r o pt pe pd a b c d t12 hip hc]
+    · have hnv : ∀ a b c d, parsePtrIP ip6 (trimSuffix r.name inAddrArpa) ≠ .v4 a b c d :=
+        fun a b c d hh => hv4 ⟨a, b, c, d, hh⟩
+      rw [decodeRR_skip_eq_spec ip6 ent m off r o h hd (Or.inr ⟨t12, hnv⟩), specStep_skip ip6 m ent r o (Or.inr ⟨t12, hnv⟩)]
   · rw [decodeRR_skip_eq_spec ip6 ent m off r o h hd (Or.inl ⟨t1, t28, t5, t12⟩),
       specStep_skip ip6 m ent r o (Or.inl ⟨t1, t28, t5, t12⟩)]
 
@@ -539,7 +548,9 @@ theorem decodeRR_eq_specStep (ip6 : Bytes → PtrIP) (ent : DNSEntry) (m : Bytes
     question (QDCOUNT = 1, at offset 12) and answer section (ANCOUNT records after it) the
     reference decodes, with at most 254 compression pointers in the question name, and whose
     every answer record — the record the reference finds after any `k < ANCOUNT` records — has
-    the shape `RecOK`, ProcessDNS on a fresh table returns and stores exactly `refEntry`: the
+    the shape `RecOK` (A / AAAA of 4 / 16 octets, decodable CNAME / IPv4-PTR targets; PTR records
+    with any other owner — ip6.arpa, DNS-SD — and all other types are unconstrained and skipped),
+    ProcessDNS on a fresh table (any table: `processDNS_complete_table`) returns and stores exactly `refEntry`: the
     reference question name and, per map, the reference A / AAAA / CNAME / PTR records in message
     order with the first record per key winning (A / AAAA keyed by address, CNAME by owner, PTR
     by target name).  When no record is storable (`refEntry` is the empty entry) it returns the
@@ -566,6 +577,119 @@ theorem processDNS_complete (ip6 : Bytes → PtrIP) (m : Bytes) (q : Spec.Questi
   · have hdec : (false || decide (refEntry ip6 m q.name rrs ≠ DNSEntry.empty q.name)) = true := by simp [he]
     rw [hdec, if_pos rfl, if_neg he]
     rfl
+
+/-! ### any prior table, any QDCOUNT, incomplete records -/
+
+/-- **ProcessDNS on an arbitrary table** (response sequences).  Under the hypotheses of
+    `processDNS_complete`, with `e0 = priorEntry t q.name` the entry already stored under the
+    question name (a fresh empty entry when there is none) and `e' = specFold … e0 rrs` the
+    reference fold of the answer records INTO `e0`:
+    * `e' ≠ e0` (some record added something): `e'` is stored under its name and returned;
+    * `e' = e0` (nothing new): the zero entry is returned (`none`) and the table keeps `e0`
+      (the model re-stores the looked-up entry, which changes nothing for a table with one entry
+      per name).
+    `processDNS_merge` says what the fold does to each map. -/
+theorem processDNS_complete_table (ip6 : Bytes → PtrIP) (t : DNSTable) (m : Bytes) (q : Spec.Question) (qe : Nat)
+    (rrs : List Spec.RR) (o an : Nat)
+    (hq : questionAt? m 12 = some (q, qe)) (hqd : u16At m 4 = some 1) (hqdep : depthAt m 12 ≤ 254)
+    (han : u16At m 6 = some an) (hrr : rrsAt? m an qe = some (rrs, o))
+    (hok : ∀ k pre off r o', k < an → rrsAt? m k qe = some (pre, off) → rrAt? m off = some (r, o') →
+      RecOK ip6 m off r) :
+    processDNS ip6 t m =
+      (if specFold ip6 m (priorEntry t q.name) rrs = priorEntry t q.name then
+         ((if (t.find q.name).isSome then
+             t.put (specFold ip6 m (priorEntry t q.name) rrs).name (specFold ip6 m (priorEntry t q.name) rrs) else t),
+          .ok none)
+       else (t.put (specFold ip6 m (priorEntry t q.name) rrs).name (specFold ip6 m (priorEntry t q.name) rrs),
+             .ok (some (specFold ip6 m (priorEntry t q.name) rrs)))) := by
+  have hdq := decodeQuestion_eq_spec m q qe hq hqd hqdep
+  obtain ⟨r6, _⟩ := rd16_of_u16At han
+  have hfold := decodeRRs_complete ip6 m (RecOK ip6 m)
+    (fun ent off r o h hk => decodeRR_eq_specStep ip6 ent m off r o h hk)
+    an (priorEntry t q.name) qe rrs o false hrr hok
+  rw [processDNS_of_decode_table ip6 t m _ qe an _ _ hdq r6 hfold]
+  by_cases he : specFold ip6 m (priorEntry t q.name) rrs = priorEntry t q.name
+  · have hdec : (false || decide (specFold ip6 m (priorEntry t q.name) rrs ≠ priorEntry t q.name)) = false := by simp [he]
+    rw [hdec, if_pos he]
+    rfl
+  · have hdec : (false || decide (specFold ip6 m (priorEntry t q.name) rrs ≠ priorEntry t q.name)) = true := by simp [he]
+    rw [hdec, if_neg he]
+    rfl
+
+/-- **what merging into an existing entry does** (each of the four maps; `key` = address for A /
+    AAAA, owner name for CNAME, target name for PTR): an element is in the merged map iff it was
+    there before — unchanged: name and TTL of a known key are NOT refreshed by a later record —
+    or its key was not there before and it is the candidate of the FIRST record of this message
+    with that key.  So first-wins holds across messages as well as inside one. -/
+theorem processDNS_merge (ip6 : Bytes → PtrIP) (m : Bytes) (e0 : DNSEntry) (rrs : List Spec.RR) :
+    (specFold ip6 m e0 rrs).name = e0.name ∧
+    (∀ x, x ∈ (specFold ip6 m e0 rrs).ip4 ↔
+      (x ∈ e0.ip4 ∨ ((∀ y ∈ e0.ip4, y.ip ≠ x.ip) ∧ IsFirst IPRec.ip (rrs.filterMap candA) x))) ∧
+    (∀ x, x ∈ (specFold ip6 m e0 rrs).ip6 ↔
+      (x ∈ e0.ip6 ∨ ((∀ y ∈ e0.ip6, y.ip ≠ x.ip) ∧ IsFirst IPRec.ip (rrs.filterMap candAAAA) x))) ∧
+    (∀ x, x ∈ (specFold ip6 m e0 rrs).cname ↔
+      (x ∈ e0.cname ∨ ((∀ y ∈ e0.cname, y.name ≠ x.name) ∧ IsFirst NameRec.name (rrs.filterMap (candCNAME m)) x))) ∧
+    (∀ x, x ∈ (specFold ip6 m e0 rrs).ptr ↔
+      (x ∈ e0.ptr ∨ ((∀ y ∈ e0.ptr, y.name ≠ x.name) ∧ IsFirst IPRec.name (rrs.filterMap (candPTR ip6 m)) x))) := by
+  rw [specFold_fields]
+  exact ⟨rfl, fun x => mem_insertAll _ _ _ x, fun x => mem_insertAll _ _ _ x, fun x => mem_insertAll _ _ _ x,
+    fun x => mem_insertAll _ _ _ x⟩
+
+/-- **QDCOUNT other than 1** (0, or 2 and more): ProcessDNS refuses the message with
+    `ErrParseFrame` and leaves the table as it is, whatever follows the header; a payload shorter
+    than a DNS header is refused with `ErrFrameLen`. -/
+theorem processDNS_qdcount (ip6 : Bytes → PtrIP) (t : DNSTable) (m : Bytes) (qd : Nat)
+    (hqd : u16At m 4 = some qd) (hne : qd ≠ 1) (hlen : 12 ≤ m.length) :
+    processDNS ip6 t m = (t, .err .parseFrame) := by
+  obtain ⟨r4, _⟩ := rd16_of_u16At hqd
+  unfold processDNS
+  rw [if_neg (by omega)]
+  have : decodeQuestion m 12 = .err .parseFrame := by
+    unfold decodeQuestion
+    rw [if_neg (by omega), r4]
+    simp only []
+    rw [if_pos hne]
+  rw [this]
+
+theorem processDNS_short (ip6 : Bytes → PtrIP) (t : DNSTable) (m : Bytes) (hlen : m.length < 12) :
+    processDNS ip6 t m = (t, .err .frameLen) := by
+  unfold processDNS
+  rw [if_pos hlen]
+
+/-- **an incomplete (truncated) record is rejected**: where the reference decoder finds no
+    complete resource record at `off` — owner name not a reference name, or type / class / TTL /
+    RDLENGTH / RDATA running past the end of the message — `decodeRR` returns an error
+    (`hedge`: the owner name is not of exactly 256 uncompressed octets, the one case where the
+    decoder is more liberal than the reference). -/
+theorem decodeRR_rejects_truncated (ip6 : Bytes → PtrIP) (ent : DNSEntry) (m : Bytes) (off : Nat)
+    (hnone : rrAt? m off = none) (hedge : ∀ ls e d, NameAt m off off ls e d → wireLen ls ≤ 255) :
+    ∃ er, decodeRR ip6 ent m off = .err er :=
+  decodeRR_rejects_incomplete ip6 ent m off hnone hedge
+
+/-- … and so is the whole message: if the first `k < ANCOUNT` answer records are complete and
+    `RecOK` and the next one is incomplete, ProcessDNS returns an error, on any table. -/
+theorem processDNS_rejects_truncated (ip6 : Bytes → PtrIP) (t : DNSTable) (m : Bytes) (q : Spec.Question) (qe : Nat)
+    (pre : List Spec.RR) (off an k : Nat)
+    (hq : questionAt? m 12 = some (q, qe)) (hqd : u16At m 4 = some 1) (hqdep : depthAt m 12 ≤ 254)
+    (han : u16At m 6 = some an) (hk : k < an) (hpre : rrsAt? m k qe = some (pre, off))
+    (hok : ∀ j pre' off' r o', j < k → rrsAt? m j qe = some (pre', off') → rrAt? m off' = some (r, o') →
+      RecOK ip6 m off' r)
+    (hnone : rrAt? m off = none) (hedge : ∀ ls e d, NameAt m off off ls e d → wireLen ls ≤ 255) :
+    ∃ er, (processDNS ip6 t m).2 = .err er := by
+  have hdq := decodeQuestion_eq_spec m q qe hq hqd hqdep
+  obtain ⟨r6, _⟩ := rd16_of_u16At han
+  have hfold := decodeRRs_complete ip6 m (RecOK ip6 m)
+    (fun ent off r o h hk => decodeRR_eq_specStep ip6 ent m off r o h hk)
+    k (priorEntry t q.name) qe pre off false hpre hok
+  obtain ⟨j, rfl⟩ : ∃ j, an = k + (j + 1) := ⟨an - k - 1, by omega⟩
+  obtain ⟨er, her⟩ := decodeRR_rejects_incomplete ip6 (specFold ip6 m (priorEntry t q.name) pre) m off hnone hedge
+  have hall : decodeRRs ip6 (k + (j + 1)) (priorEntry t q.name) m qe false =
+      (specFold ip6 m (priorEntry t q.name) pre, .err er) := by
+    rw [decodeRRs_add, hfold]
+    simp only []
+    rw [decodeRRs, her]
+  rw [processDNS_of_decode_table ip6 t m _ qe _ _ _ hdq r6 hall]
+  exact ⟨er, rfl⟩
 
 /-- **every reference record is present** (membership form of `processDNS_complete`): under the
     same hypotheses the call returns `e` (as `none` when `e` is empty) with the reference question
@@ -1161,6 +1285,29 @@ example :
   refine ⟨hok, hrr, ?_⟩
   rw [mdns_eq_spec sampleMdns 8 0 0x8400 0 2 0 1 [] 12 _ 81 (by decide) (by decide) (by decide) (by decide)
     (by decide) (by decide) (by decide) rfl hrr hok (by omega)]
+  decide
+
+/-- a PTR record whose owner is not an IPv4 reverse name (here owner "b", target "c" — the shape of
+    a DNS-SD service PTR or an ip6.arpa name) next to an A record: the A record is stored, the PTR
+    record is skipped (before the fix commit the whole message failed and the A record was lost) -/
+example : processDNS (fun _ => .invalid) []
+      [0,1,0x81,0x80,0,1,0,2,0,0,0,0, 1,97,0, 0,1,0,1, 0xc0,12, 0,1, 0,1, 0,0,0,60, 0,4, 10,0,0,1,
+       1,98,0, 0,12, 0,1, 0,0,0,60, 0,3, 1,99,0] =
+    ([([97], { name := [97], ip4 := [{ name := [97], ip := [10,0,0,1], ttl := 60 }], ip6 := [], cname := [], ptr := [] })],
+      .ok (some { name := [97], ip4 := [{ name := [97], ip := [10,0,0,1], ttl := 60 }], ip6 := [], cname := [], ptr := [] })) := by
+  decide
+/-- the same response a second time, now on the table it produced: nothing new, the zero entry is
+    returned and the stored record keeps its TTL (`processDNS_merge`: first wins across messages) -/
+example : (processDNS (fun _ => .invalid)
+      [([97], { name := [97], ip4 := [{ name := [97], ip := [10,0,0,1], ttl := 60 }], ip6 := [], cname := [], ptr := [] })]
+      [0,1,0x81,0x80,0,1,0,1,0,0,0,0, 1,97,0, 0,1,0,1, 0xc0,12, 0,1, 0,1, 0,0,0,99, 0,4, 10,0,0,1]) =
+    ([([97], { name := [97], ip4 := [{ name := [97], ip := [10,0,0,1], ttl := 60 }], ip6 := [], cname := [], ptr := [] })],
+      .ok none) := by decide
+/-- QDCOUNT 0 and 2 are refused, the record of a message cut in its RDATA as well -/
+example : (processDNS (fun _ => .invalid) [] [0,1,0x81,0x80,0,0,0,0,0,0,0,0]).2 = .err .parseFrame := by decide
+example : (processDNS (fun _ => .invalid) [] [0,1,0x81,0x80,0,2,0,0,0,0,0,0, 0,0,1,0,1, 0,0,1,0,1]).2 = .err .parseFrame := by decide
+example : (processDNS (fun _ => .invalid) []
+      [0,1,0x81,0x80,0,1,0,1,0,0,0,0, 1,97,0, 0,1,0,1, 0xc0,12, 0,1, 0,1, 0,0,0,60, 0,4, 10,0,0]).2 = .err .invalidLen := by
   decide
 
 /-- a self-pointing name has no derivation and is rejected -/
